@@ -15,7 +15,7 @@
    which member of each pair is the live one and cross-checks it against the
    implementation.  After a repair of the sources the same file compiles and the
    `_full` members become the live ones. *)
-From Coq Require Import List String Ascii ZArith QArith Bool Arith Lia.
+From Coq Require Import List String Ascii ZArith QArith Bool Arith Lia Lqa.
 From SV Require Import C20.CfgTree C20.Lemmas Gen.C20_Schema Gen.C20_Builders C20.Eval.
 Import ListNotations.
 Close Scope Q_scope.
@@ -124,12 +124,14 @@ Proof.
   destruct (fold_res get_aug_config__for_intensity_aug xs _) as [s1|e]; [|reflexivity].
   destruct (fold_res get_aug_config__for_geometric_aug ys s1) as [s2|e]; reflexivity.
 Qed.
+Print Assumptions aug_unfold_gen.
 
 Lemma aug_unfold : forall il gl,
   get_aug_config (aug_args (names_arg il) (names_arg gl)) =
   bind (fold_res get_aug_config__for_intensity_aug (map VStr il) aug_init)
        (fun s1 => fold_res get_aug_config__for_geometric_aug (map VStr gl) s1).
 Proof. intros. apply aug_unfold_gen. Qed.
+Print Assumptions aug_unfold.
 
 Lemma fold_res_ext_in : forall {S A} (f g : S -> A -> res S) l s,
   (forall s x, In x l -> f s x = g s x) -> fold_res f l s = fold_res g l s.
@@ -138,6 +140,7 @@ Proof.
   rewrite (H s x (or_introl eq_refl)). destruct (g s x); simpl; [|reflexivity].
   apply IH. intros s0 x0 I. apply H. right. exact I.
 Qed.
+Print Assumptions fold_res_ext_in.
 
 Lemma aug_fold : forall il gl,
   Forall (fun n => In n INTENSITY) il -> Forall (fun n => In n GEOMETRIC) gl ->
@@ -153,6 +156,7 @@ Proof.
     unfold aug_step. simpl in Hi.
     repeat (destruct Hi as [Hi|Hi]; [subst; reflexivity|]). contradiction.
 Qed.
+Print Assumptions aug_fold.
 
 Lemma filter_length_mono : forall {A} (p q : A -> bool) l,
   (forall x, p x = true -> q x = true) -> List.length (filter p l) <= List.length (filter q l).
@@ -160,6 +164,7 @@ Proof.
   induction l as [|a r IH]; intro H; simpl; [lia|]. specialize (IH H).
   destruct (p a) eqn:P; [rewrite (H a P); simpl; lia | destruct (q a); simpl; lia].
 Qed.
+Print Assumptions filter_length_mono.
 
 Lemma allowed_partial_antitone : forall A n,
   allowed_partial (canon ALL (n :: A)) = true -> allowed_partial (canon ALL A) = true.
@@ -170,6 +175,7 @@ Proof.
   intros x Hx. apply mem_str_In in Hx. apply canon_In in Hx. destruct Hx as [H1 H2].
   apply mem_str_In. apply canon_In. split; [exact H1 | right; exact H2].
 Qed.
+Print Assumptions allowed_partial_antitone.
 
 (* on a list il ++ gl the selector only sees gl *)
 Lemma selector_app : forall il gl, Forall (fun n => In n INTENSITY) il ->
@@ -184,6 +190,7 @@ Proof.
   repeat (destruct Ha as [Ha|Ha]; [subst; repeat (destruct Hi as [Hi|Hi]; [discriminate Hi|]); contradiction|]).
   contradiction.
 Qed.
+Print Assumptions selector_app.
 
 Lemma aug_from_reach : forall allowed R,
   aug_check allowed R = true ->
@@ -215,6 +222,7 @@ Proof.
     rewrite Forall_forall in Hg. specialize (Hg n I). simpl in Hg.
     repeat (destruct Hg as [Hg|Hg]; [subst; exact En|]). contradiction.
 Qed.
+Print Assumptions aug_from_reach.
 
 (* (c), strongest unconditional statement: for ALL lists (any length, any order,
    repetitions allowed) of documented names in which the geometric list does
@@ -234,6 +242,7 @@ Proof.
   - exact allowed_partial_antitone.
   - unfold allowed_partial. rewrite selector_app by assumption. rewrite Sel. reflexivity.
 Qed.
+Print Assumptions aug_lists_partial.
 
 (* (c), the full clause — live after a repair of F12 *)
 Theorem aug_lists_full : aug_check all_true aug_R_full = true ->
@@ -247,6 +256,7 @@ Proof.
   intros B il gl Hi Hg.
   exact (aug_from_reach all_true aug_R_full B (fun _ _ _ => eq_refl) il gl Hi Hg eq_refl).
 Qed.
+Print Assumptions aug_lists_full.
 
 Lemma aug_ok_b_false : forall gl, Forall (fun n => In n GEOMETRIC) gl -> aug_ok_b [] gl = false ->
   ~ (exists s, get_aug_config (aug_args (names_arg []) (names_arg gl)) = Ok s /\
@@ -256,6 +266,7 @@ Proof.
   assert (forallb (fun n => geo_enabled n s) gl = true) as T by (apply forallb_forall; exact H).
   rewrite T in B. discriminate.
 Qed.
+Print Assumptions aug_ok_b_false.
 
 (* (c), refutation — live on the pinned tree (F12): a list of documented
    geometric names, found by the exhaustive search over ordered lists of
@@ -267,6 +278,7 @@ Proof.
   intros l F. apply Forall_forall. intros n I. apply mem_str_In.
   rewrite forallb_forall in F. apply F. exact I.
 Qed.
+Print Assumptions all_geometric.
 
 Theorem aug_lists_refuted : aug_geo_exhaustive4_b = false ->
   exists gl, Forall (fun n => In n GEOMETRIC) gl /\ selector_F12 gl = true /\
@@ -281,11 +293,13 @@ Proof.
       | vm_compute; reflexivity
       | apply aug_ok_b_false; [ apply all_geometric; vm_compute; reflexivity | vm_compute; reflexivity ] ] ].
 Qed.
+Print Assumptions aug_lists_refuted.
 
 (* a single name given as a string is the singleton list *)
 Theorem aug_string_is_singleton : forall n m,
   get_aug_config (aug_args (VStr n) (VStr m)) = get_aug_config (aug_args (names_arg [n]) (names_arg [m])).
 Proof. intros. reflexivity. Qed.
+Print Assumptions aug_string_is_singleton.
 
 (* ================================================================= (a), (b) *)
 (* pass-through and defaults of the three top-level builders *)
@@ -293,9 +307,11 @@ Proof. intros. reflexivity. Qed.
 Lemma bind_assoc : forall {A B C} (m : res A) (g : A -> res B) (f : B -> res C),
   bind (bind m g) f = bind m (fun x => bind (g x) f).
 Proof. intros A B C [a|e] g f; reflexivity. Qed.
+Print Assumptions bind_assoc.
 
 Lemma mk_kw_shape : forall c kw x, mk_kw c kw [] = Ok x -> x = VObj (c_name c) (fill c kw).
 Proof. unfold mk_kw. simpl. intros c kw x H. apply mk_ok_shape in H. tauto. Qed.
+Print Assumptions mk_kw_shape.
 
 (* one step of symbolic execution of a generated builder under `H : body = Ok r`:
    constructor calls are replaced by the instance they return (mk_ok_shape: the
@@ -402,6 +418,7 @@ Theorem params_all_tabled :
   params_tabled get_model_config_params MODEL_PATHS MODEL_PROCESSED &&&
   params_tabled get_trainer_config_params TRAINER_PATHS TRAINER_PROCESSED = true.
 Proof. vm_compute. reflexivity. Qed.
+Print Assumptions params_all_tabled.
 
 Ltac all_paths I :=
   repeat (destruct I as [I|I]; [injection I as <- <-; reflexivity|]); contradiction.
@@ -411,18 +428,21 @@ Proof.
   intros a r H. unfold get_data_config in H. cbv zeta in H. repeat step H.
   intros p path I. cbv [DATA_PATHS same under map app fst snd] in I. all_paths I.
 Qed.
+Print Assumptions data_pass_through.
 
 Theorem model_pass_through : passes get_model_config MODEL_PATHS.
 Proof.
   intros a r H. unfold get_model_config in H. cbv zeta in H. repeat step H.
   intros p path I. cbv [MODEL_PATHS] in I. all_paths I.
 Qed.
+Print Assumptions model_pass_through.
 
 Theorem trainer_pass_through : passes get_trainer_config TRAINER_PATHS.
 Proof.
   intros a r H. unfold get_trainer_config in H. cbv zeta in H. repeat step H.
   intros p path I. cbv [TRAINER_PATHS same under map app fst snd] in I. all_paths I.
 Qed.
+Print Assumptions trainer_pass_through.
 
 Ltac all_defaults I :=
   vm_compute in I; repeat (destruct I as [I|I]; [subst; reflexivity|]); contradiction.
@@ -436,6 +456,7 @@ Proof.
   intros a r H. unfold get_data_config in H. cbv zeta in H. repeat step H.
   split; [complete_instance | intros p I; all_defaults I].
 Qed.
+Print Assumptions data_defaults.
 
 Theorem model_defaults :
   holds_defaults get_model_config cls_ModelConfig (map snd MODEL_PATHS ++ map snd MODEL_PROCESSED).
@@ -443,6 +464,7 @@ Proof.
   intros a r H. unfold get_model_config in H. cbv zeta in H. repeat step H.
   split; [complete_instance | intros p I; all_defaults I].
 Qed.
+Print Assumptions model_defaults.
 
 Theorem trainer_defaults :
   holds_defaults get_trainer_config cls_TrainerConfig (map snd TRAINER_PATHS ++ map snd TRAINER_PROCESSED).
@@ -450,6 +472,7 @@ Proof.
   intros a r H. unfold get_trainer_config in H. cbv zeta in H. repeat step H.
   split; [complete_instance | intros p I; all_defaults I].
 Qed.
+Print Assumptions trainer_defaults.
 
 (* the statement about defaults is not vacuous: these are the unfed options *)
 Example ex_unfed_options :
@@ -458,3 +481,505 @@ Example ex_unfed_options :
   unfed (map snd DATA_PATHS ++ map snd DATA_PROCESSED) cls_DataConfig = [["skeletons"]] /\
   unfed (map snd MODEL_PATHS ++ map snd MODEL_PROCESSED) cls_ModelConfig = [["total_params"]].
 Proof. vm_compute. repeat split. Qed.
+
+(* =================================================== interpreted parameters *)
+(* backbone_config, head_configs, lr_scheduler: option names and dicts *)
+
+(* symbolic execution of a generated builder with evaluation (vm_compute) of
+   everything concrete; constructor calls on caller-supplied keyword dicts are
+   kept as hypotheses `mk cls kw = Ok o` *)
+Ltac eval_ok H m :=
+  let v := eval vm_compute in m in
+  lazymatch v with
+  | Ok _ => replace m with v in H by (vm_compute; reflexivity)
+  end.
+
+Ltac xstep H :=
+  lazymatch type of H with
+  | bind (bind _ _) _ = Ok _ => rewrite bind_assoc in H
+  | bind (mk_kw ?c ?kw [VDict ?d]) _ = Ok _ =>
+      change (mk_kw c kw [VDict d]) with (mk c (kw ++ d)%list) in H; cbn [app] in H
+  | bind (mk ?c ?kw) _ = Ok _ =>
+      let x := fresh "o" in let E := fresh "E" in
+      destruct (mk c kw) as [x|] eqn:E; [cbn [bind] in H | discriminate H]
+  | bind (mk_kw ?c ?kw []) _ = Ok _ =>
+      first [ eval_ok H (mk_kw c kw []); cbn [bind] in H
+            | change (mk_kw c kw []) with (mk c kw) in H ]
+  | bind (if ?c then ?A else ?B) _ = Ok _ =>
+      let cv := eval vm_compute in c in
+      lazymatch cv with
+      | true => change (if c then A else B) with A in H
+      | false => change (if c then A else B) with B in H
+      end
+  | (if ?c then ?A else ?B) = Ok _ =>
+      let cv := eval vm_compute in c in
+      lazymatch cv with
+      | true => change (if c then A else B) with A in H
+      | false => change (if c then A else B) with B in H
+      end
+  | bind (py_for_items (VDict _) _ _) _ = Ok _ => cbn [py_for_items fold_break] in H
+  | bind ?m _ = Ok _ => eval_ok H m; cbn [bind] in H
+  | Ok _ = Ok _ => inversion H; subst; clear H
+  | ?m = Ok _ => eval_ok H m
+  end.
+
+Definition FAMILIES := ["unet"; "convnext"; "swint"].
+Definition PRESETS : list (string * (string * string)) :=
+  [("unet", ("unet", "UNetConfig")); ("unet_medium_rf", ("unet", "UNetMediumRFConfig"));
+   ("unet_large_rf", ("unet", "UNetLargeRFConfig"));
+   ("convnext", ("convnext", "ConvNextConfig")); ("convnext_tiny", ("convnext", "ConvNextConfig"));
+   ("convnext_small", ("convnext", "ConvNextSmallConfig")); ("convnext_base", ("convnext", "ConvNextBaseConfig"));
+   ("convnext_large", ("convnext", "ConvNextLargeConfig"));
+   ("swint", ("swint", "SwinTConfig")); ("swint_tiny", ("swint", "SwinTConfig"));
+   ("swint_small", ("swint", "SwinTSmallConfig")); ("swint_base", ("swint", "SwinTBaseConfig"))].
+Definition HEADS : list (string * string) :=
+  [("single_instance", "SingleInstanceConfig"); ("centroid", "CentroidConfig");
+   ("centered_instance", "CenteredInstanceConfig"); ("bottomup", "BottomUpConfig")].
+Definition SCHEDULERS : list (string * string) :=
+  [("step_lr", "StepLRConfig"); ("reduce_lr_on_plateau", "ReduceLROnPlateauConfig")].
+
+Definition bb_arg (v : cfg) : string -> cfg := env_of [("backbone_cfg", v)] get_backbone_config_defaults.
+Definition head_arg (v : cfg) : string -> cfg := env_of [("head_cfg", v)] get_head_configs_defaults.
+Definition trainer_arg (v : cfg) : string -> cfg := env_of [("lr_scheduler", v)] get_trainer_config_defaults.
+
+(* of the members, exactly m is set, and it holds `want` *)
+Definition only_member (members : list string) (m : string) (want r : cfg) : bool :=
+  forallb (fun f => match get [f] r with
+                    | Some v => if f =? m then cfg_eqb v want else is_none v
+                    | None => false
+                    end) members.
+
+Definition preset_ok (e : string * (string * string)) : bool :=
+  match get_backbone_config (bb_arg (VStr (fst e))), find_class classes (snd (snd e)) with
+  | Ok r, Some c => only_member FAMILIES (fst (snd e)) (default_obj c) r
+  | _, _ => false
+  end.
+Definition head_ok (e : string * string) : bool :=
+  match get_head_configs (head_arg (VStr (fst e))), find_class classes (snd e) with
+  | Ok r, Some c => only_member (map fst HEADS) (fst e) (default_obj c) r
+  | _, _ => false
+  end.
+Definition sched_ok (e : string * string) : bool :=
+  match get_trainer_config (trainer_arg (VStr (fst e))), find_class classes (snd e) with
+  | Ok r, Some c => match get ["lr_scheduler"] r with
+                    | Some l => only_member (map fst SCHEDULERS) (fst e) (default_obj c) l
+                    | None => false
+                    end
+  | _, _ => false
+  end.
+
+(* every documented option name selects its member, holding exactly the schema
+   defaults of the documented class, and nothing else.  Finite domains: the 12
+   backbone presets, the 4 head types, the 2 schedulers. *)
+Theorem option_names_select_documented_defaults :
+  forallb preset_ok PRESETS &&& forallb head_ok HEADS &&& forallb sched_ok SCHEDULERS = true.
+Proof. vm_compute. reflexivity. Qed.
+Print Assumptions option_names_select_documented_defaults.
+
+(* a dict {member: kwargs} is the member's constructor applied to the caller's
+   kwargs, for ALL kwargs; by mk_reflects_kwargs / mk_defaults_elsewhere every
+   supplied option lands unmodified, every other one holds the schema default *)
+Theorem backbone_dict : forall kw r,
+  (get_backbone_config (bb_arg (VDict [("unet", VDict kw)])) = Ok r ->
+   exists u, mk cls_UNetConfig kw = Ok u /\
+             r = VObj "BackboneConfig" [("unet", u); ("convnext", VNone); ("swint", VNone)]) /\
+  (get_backbone_config (bb_arg (VDict [("convnext", VDict kw)])) = Ok r ->
+   exists u, mk cls_ConvNextConfig kw = Ok u /\
+             r = VObj "BackboneConfig" [("unet", VNone); ("convnext", u); ("swint", VNone)]) /\
+  (get_backbone_config (bb_arg (VDict [("swint", VDict kw)])) = Ok r ->
+   exists u, mk cls_SwinTConfig kw = Ok u /\
+             r = VObj "BackboneConfig" [("unet", VNone); ("convnext", VNone); ("swint", u)]).
+Proof.
+  intros kw r. split; [|split]; intro H; unfold get_backbone_config in H; cbv zeta in H;
+    repeat xstep H; eexists; split; try eassumption; reflexivity.
+Qed.
+Print Assumptions backbone_dict.
+
+Theorem head_dict : forall kw kw2 r,
+  (get_head_configs (head_arg (VDict [("single_instance", VDict [("confmaps", VDict kw)])])) = Ok r ->
+   exists cm, mk cls_SingleInstanceConfMapsConfig kw = Ok cm /\
+     r = VObj "HeadConfig" [("single_instance", VObj "SingleInstanceConfig" [("confmaps", cm)]);
+                            ("centroid", VNone); ("centered_instance", VNone); ("bottomup", VNone)]) /\
+  (get_head_configs (head_arg (VDict [("centroid", VDict [("confmaps", VDict kw)])])) = Ok r ->
+   exists cm, mk cls_CentroidConfMapsConfig kw = Ok cm /\
+     r = VObj "HeadConfig" [("single_instance", VNone); ("centroid", VObj "CentroidConfig" [("confmaps", cm)]);
+                            ("centered_instance", VNone); ("bottomup", VNone)]) /\
+  (get_head_configs (head_arg (VDict [("centered_instance", VDict [("confmaps", VDict kw)])])) = Ok r ->
+   exists cm, mk cls_CenteredInstanceConfMapsConfig kw = Ok cm /\
+     r = VObj "HeadConfig" [("single_instance", VNone); ("centroid", VNone);
+                            ("centered_instance", VObj "CenteredInstanceConfig" [("confmaps", cm)]);
+                            ("bottomup", VNone)]) /\
+  (get_head_configs (head_arg (VDict [("bottomup", VDict [("confmaps", VDict kw); ("pafs", VDict kw2)])])) = Ok r ->
+   exists cm pf, mk cls_BottomUpConfMapsConfig kw = Ok cm /\ mk cls_PAFConfig kw2 = Ok pf /\
+     r = VObj "HeadConfig" [("single_instance", VNone); ("centroid", VNone); ("centered_instance", VNone);
+                            ("bottomup", VObj "BottomUpConfig" [("confmaps", cm); ("pafs", pf)])]).
+Proof.
+  intros kw kw2 r. split; [|split; [|split]]; intro H; unfold get_head_configs in H; cbv zeta in H;
+    repeat xstep H; repeat eexists; try eassumption.
+Qed.
+Print Assumptions head_dict.
+
+Theorem lr_scheduler_dict : forall kw r,
+  (get_trainer_config (trainer_arg (VDict [("step_lr", VDict kw)])) = Ok r ->
+   exists o, mk cls_StepLRConfig kw = Ok o /\
+     get ["lr_scheduler"] r = Some (VObj "LRSchedulerConfig" [("step_lr", o); ("reduce_lr_on_plateau", VNone)])) /\
+  (get_trainer_config (trainer_arg (VDict [("reduce_lr_on_plateau", VDict kw)])) = Ok r ->
+   exists o, mk cls_ReduceLROnPlateauConfig kw = Ok o /\
+     get ["lr_scheduler"] r = Some (VObj "LRSchedulerConfig" [("step_lr", VNone); ("reduce_lr_on_plateau", o)])).
+Proof.
+  intros kw r. split; intro H; unfold get_trainer_config in H; cbv zeta in H;
+    repeat xstep H; eexists; split; try eassumption; reflexivity.
+Qed.
+Print Assumptions lr_scheduler_dict.
+
+(* ====================================================================== (e) *)
+(* validators *)
+
+Lemma qle_true : forall a b, qle a b = true <-> (a <= b)%Q.
+Proof. intros. unfold qle. apply Qle_bool_iff. Qed.
+Print Assumptions qle_true.
+Lemma qle_false : forall a b, qle a b = false <-> (b < a)%Q.
+Proof.
+  intros. unfold qle. split.
+  - intro H. apply Qnot_le_lt. intro L. apply Qle_bool_iff in L. congruence.
+  - intro H. destruct (Qle_bool a b) eqn:E; [|reflexivity]. apply Qle_bool_iff in E.
+    exfalso. apply (Qlt_not_le _ _ H E).
+Qed.
+Print Assumptions qle_false.
+Lemma qlt_true : forall a b, qlt a b = true <-> (a < b)%Q.
+Proof. intros. unfold qlt. rewrite negb_true_iff. apply (qle_false b a). Qed.
+Print Assumptions qlt_true.
+Lemma qlt_false : forall a b, qlt a b = false <-> (b <= a)%Q.
+Proof. intros. unfold qlt. rewrite negb_false_iff. apply (qle_true b a). Qed.
+Print Assumptions qlt_false.
+
+(* v is a real number in [0, 1] (Python: int, float or bool) *)
+Definition in_unit (v : cfg) : Prop := exists q, num_of v = Some q /\ (0 <= q)%Q /\ (q <= 1)%Q.
+
+Ltac cmp_cases :=
+  repeat match goal with
+         | |- context [qle ?a ?b] =>
+             let E := fresh "E" in destruct (qle a b) eqn:E;
+             [apply qle_true in E | apply qle_false in E]
+         | |- context [qlt ?a ?b] =>
+             let E := fresh "E" in destruct (qlt a b) eqn:E;
+             [apply qlt_true in E | apply qlt_false in E]
+         end.
+
+Ltac unit_numeric q :=
+  cmp_cases; simpl;
+  (split; [ intro; first [discriminate | exists q; split; [reflexivity | split; lra]]
+          | intros [q' [Eq [L1 L2]]]; simpl in Eq; injection Eq as <-; first [reflexivity | exfalso; lra] ]).
+
+Ltac not_numeric := simpl; split; [discriminate | intros [q' [Eq _]]; discriminate Eq].
+
+Theorem validate_proportion_spec : forall i a v, is_ok (validate_proportion i a v) = true <-> in_unit v.
+Proof.
+  intros i a v. unfold in_unit.
+  unfold validate_proportion, py_le, py_cmp.
+  destruct v as [| |b|z|q|s|l|l|kv|c kv]; try not_numeric.
+  - destruct b; cbn.
+    + split; [intros _|reflexivity]. exists 1%Q. split; [reflexivity|]. split; lra.
+    + split; [intros _|reflexivity]. exists 0%Q. split; [reflexivity|]. split; lra.
+  - cbv [py_and bind num_of negb is_ok]. unit_numeric (inject_Z z).
+  - cbv [py_and bind num_of negb is_ok]. unit_numeric q.
+Qed.
+Print Assumptions validate_proportion_spec.
+
+Definition PROB_FIELDS : list (string * string) :=
+  [("IntensityConfig", "uniform_noise_p"); ("IntensityConfig", "gaussian_noise_p");
+   ("IntensityConfig", "contrast_p"); ("IntensityConfig", "brightness_p");
+   ("GeometricConfig", "affine_p"); ("GeometricConfig", "erase_p"); ("GeometricConfig", "mixup_p")].
+
+(* the validator of every probability option accepts exactly the numbers in [0,1] *)
+Theorem probability_validators : forall cn fn, In (cn, fn) PROB_FIELDS ->
+  exists c f, find_class classes cn = Some c /\ find_field c fn = Some f /\
+              forall inst v, f_validator f inst v = Ok tt <-> in_unit v.
+Proof.
+  intros cn fn I. simpl in I.
+  repeat (destruct I as [I|I];
+          [ injection I as <- <-; eexists; eexists; split; [reflexivity | split; [reflexivity|]];
+            intros inst v; cbn [f_validator];
+            match goal with |- bind (validate_proportion ?i ?a v) _ = _ <-> _ =>
+              rewrite <- (validate_proportion_spec i a v); destruct (validate_proportion i a v) end;
+            simpl; split; congruence
+          |]).
+  contradiction.
+Qed.
+Print Assumptions probability_validators.
+
+(* ... so the constructors reject out-of-range probabilities *)
+Theorem probabilities_out_of_range_rejected : forall cn fn c kw r v,
+  In (cn, fn) PROB_FIELDS -> find_class classes cn = Some c ->
+  mk c kw = Ok r -> lookup fn kw = Some v -> in_unit v.
+Proof.
+  intros cn fn c kw r v I C M L.
+  destruct (probability_validators cn fn I) as [c' [f [C' [F V]]]].
+  rewrite C in C'. injection C' as <-. apply (V r v). eapply mk_validates; eassumption.
+Qed.
+Print Assumptions probabilities_out_of_range_rejected.
+
+(* --- scale ---------------------------------------------------------------- *)
+
+Definition nonneg_float (x : cfg) : Prop := exists q, x = VFloat q /\ (0 <= q)%Q.
+(* "a float >= 0 or a list of floats >= 0" *)
+Definition scale_ok (v : cfg) : Prop :=
+  nonneg_float v \/ exists l, v = VList l /\ Forall nonneg_float l.
+
+Definition scale_elem (x : cfg) : res bool := py_and (Ok (py_is_float x)) (fun _ => py_ge x (VInt 0)).
+
+Lemma scale_elem_spec : forall x, scale_elem x = Ok true <-> nonneg_float x.
+Proof.
+  intro x. unfold nonneg_float, scale_elem, py_ge, py_cmp.
+  destruct x as [| |b|z|q|s|l|l|kv|c kv];
+    try (simpl; split; [discriminate | intros [q' [Eq _]]; discriminate Eq]).
+  cbv [py_and bind num_of py_is_float inject_Z]. cmp_cases; simpl.
+  - split; [intros _; exists q; split; [reflexivity|exact E] | reflexivity].
+  - split; [discriminate | intros [q' [Eq L]]; injection Eq as <-; exfalso; lra].
+Qed.
+Print Assumptions scale_elem_spec.
+
+Theorem scale_validator_spec : forall inst v, py_getattr inst "scale" = Ok v ->
+  (is_ok (PreprocessingConfig__validate_scale inst) = true <-> scale_ok v).
+Proof.
+  intros inst v G. unfold PreprocessingConfig__validate_scale. rewrite !G. cbn [bind].
+  unfold scale_ok.
+  destruct v as [| |b|z|q|s|l|l|kv|c kv];
+    try (cbn; split; [discriminate | intros [[q' [Eq _]]|[l' [Eq _]]]; discriminate Eq]).
+  - (* float *)
+    change (py_and (Ok (py_is_float (VFloat q))) (fun _ => py_ge (VFloat q) (VInt 0))) with (scale_elem (VFloat q)).
+    destruct (scale_elem (VFloat q)) as [[|]|e] eqn:E.
+    + simpl. split; [intros _; left; apply scale_elem_spec; exact E | reflexivity].
+    + cbn. split; [discriminate|]. intros [N|[l' [Eq _]]]; [|discriminate Eq].
+      apply scale_elem_spec in N. congruence.
+    + cbn. split; [discriminate|]. intros [N|[l' [Eq _]]]; [|discriminate Eq].
+      apply scale_elem_spec in N. congruence.
+  - (* list *)
+    change (fun v_x : cfg => py_and (Ok (py_is_float v_x)) (fun _ : unit => py_ge v_x (VInt 0))) with scale_elem.
+    cbn [py_is_float py_is_list py_and bind py_all].
+    destruct (all_res scale_elem l) as [[|]|e] eqn:A; cbn.
+    + split; [intros _|reflexivity]. right. exists l. split; [reflexivity|].
+      apply all_res_true in A. eapply Forall_impl; [|exact A]. intros x Hx. apply scale_elem_spec. exact Hx.
+    + split; [discriminate|]. intros [[q' [Eq _]]|[l' [Eq F]]]; [discriminate Eq|]. injection Eq as <-.
+      assert (all_res scale_elem l = Ok true) as T.
+      { apply all_res_true. eapply Forall_impl; [|exact F]. intros x Hx. apply scale_elem_spec. exact Hx. }
+      congruence.
+    + split; [discriminate|]. intros [[q' [Eq _]]|[l' [Eq F]]]; [discriminate Eq|]. injection Eq as <-.
+      assert (all_res scale_elem l = Ok true) as T.
+      { apply all_res_true. eapply Forall_impl; [|exact F]. intros x Hx. apply scale_elem_spec. exact Hx. }
+      congruence.
+Qed.
+Print Assumptions scale_validator_spec.
+
+(* ... so the constructor rejects invalid scales *)
+Theorem invalid_scale_rejected : forall kw r v,
+  mk cls_PreprocessingConfig kw = Ok r -> lookup "scale" kw = Some v -> scale_ok v.
+Proof.
+  intros kw r v M L.
+  assert (exists f, find_field cls_PreprocessingConfig "scale" = Some f /\
+                    forall inst x, f_validator f inst x = Ok tt -> is_ok (PreprocessingConfig__validate_scale inst) = true)
+    as [f [F V]].
+  { eexists. split; [reflexivity|]. intros inst x. cbn [f_validator].
+    destruct (PreprocessingConfig__validate_scale inst); simpl; [reflexivity|discriminate]. }
+  pose proof (mk_validates _ _ _ _ _ _ M F L) as H. apply V in H.
+  apply (scale_validator_spec r v); [|exact H].
+  pose proof (mk_reflects_kwargs _ _ _ _ _ M L) as G.
+  destruct (mk_complete _ _ _ M) as [kv [R _]]. subst r. simpl in G. simpl.
+  destruct (lookup "scale" kv); [injection G as <-; reflexivity | discriminate].
+Qed.
+Print Assumptions invalid_scale_rejected.
+
+(* --- backbone sizes --------------------------------------------------------- *)
+
+Definition SWINT_SIZES := ["tiny"; "small"; "base"].
+Definition CONVNEXT_SIZES := ["tiny"; "small"; "base"; "large"].
+Definition SWINT_CLASSES := [cls_SwinTConfig; cls_SwinTSmallConfig; cls_SwinTBaseConfig].
+Definition CONVNEXT_CLASSES := [cls_ConvNextConfig; cls_ConvNextSmallConfig; cls_ConvNextBaseConfig; cls_ConvNextLargeConfig].
+
+Definition known_size (sizes : list string) (v : cfg) : Prop := exists s, v = VStr s /\ In s sizes.
+
+(* class c rejects every model_type outside `sizes` (for ALL values v) *)
+Definition rejects_unknown_sizes (sizes : list string) (c : class_def) : Prop :=
+  forall kw r v, mk c kw = Ok r -> lookup "model_type" kw = Some v -> known_size sizes v.
+
+Lemma existsb_strs_spec : forall x sizes, existsb (cfg_eqb x) (map VStr sizes) = true <-> known_size sizes x.
+Proof.
+  intros x sizes. unfold known_size. rewrite existsb_exists. split.
+  - intros [y [I E]]. apply in_map_iff in I. destruct I as [s [<- I]].
+    apply cfg_eqb_eq in E. exists s. split; assumption.
+  - intros [s [-> I]]. exists (VStr s). split; [apply in_map; exact I | simpl; apply String.eqb_refl].
+Qed.
+Print Assumptions existsb_strs_spec.
+
+(* the model_type validator of class c, as attached in the generated schema,
+   accepts only `sizes` *)
+Ltac size_validator sizes :=
+  eexists; split; [reflexivity|]; intros inst x; cbn [f_validator];
+  lazymatch goal with
+  | |- bind (?m inst x) _ = Ok tt -> _ => unfold m; cbn [py_contains bind]
+  end;
+  lazymatch goal with
+  | |- context [py_in_strs x ?L] =>
+      unfold known_size; rewrite <- (py_in_strs_spec x sizes);
+      destruct (py_in_strs x L) eqn:E; simpl; (let Hx := fresh "Hx" in intro Hx; first [reflexivity | discriminate Hx])
+  | |- context [existsb (cfg_eqb x) ?L] =>
+      change L with (map VStr sizes); rewrite <- (existsb_strs_spec x sizes);
+      destruct (existsb (cfg_eqb x) (map VStr sizes)) eqn:E; simpl; (let Hx := fresh "Hx" in intro Hx; first [reflexivity | discriminate Hx])
+  end.
+
+Ltac rejects_sizes sizes :=
+  intros kw r v M L;
+  lazymatch type of M with
+  | mk ?c _ = _ =>
+      assert (exists f, find_field c "model_type" = Some f /\
+                        forall inst x, f_validator f inst x = Ok tt -> known_size sizes x) as [f [F V]]
+        by (size_validator sizes);
+      exact (V r v (mk_validates _ _ _ _ _ _ M F L))
+  end.
+
+Theorem swint_sizes_validated : Forall (rejects_unknown_sizes SWINT_SIZES) SWINT_CLASSES.
+Proof. unfold SWINT_CLASSES. repeat (apply Forall_cons; [rejects_sizes SWINT_SIZES|]). apply Forall_nil. Qed.
+Print Assumptions swint_sizes_validated.
+
+(* status of F16: do the ConvNeXt classes reject the unknown size "huge"? *)
+Definition convnext_sizes_validated_b : bool :=
+  forallb (fun c => negb (is_ok (mk c [("model_type", VStr "huge")]))) CONVNEXT_CLASSES.
+
+Theorem convnext_sizes_full : convnext_sizes_validated_b = true ->
+  Forall (rejects_unknown_sizes CONVNEXT_SIZES) CONVNEXT_CLASSES.
+Proof.
+  intro B.
+  first [ exfalso; vm_compute in B; discriminate B
+        | unfold CONVNEXT_CLASSES; repeat (apply Forall_cons; [rejects_sizes CONVNEXT_SIZES|]); apply Forall_nil ].
+Qed.
+Print Assumptions convnext_sizes_full.
+
+Definition convnext_cex : class_def :=
+  match find (fun c => is_ok (mk c [("model_type", VStr "huge")])) CONVNEXT_CLASSES with
+  | Some c => c
+  | None => cls_ConvNextConfig
+  end.
+
+Theorem convnext_sizes_refuted : convnext_sizes_validated_b = false ->
+  exists c, In c CONVNEXT_CLASSES /\ ~ rejects_unknown_sizes CONVNEXT_SIZES c.
+Proof.
+  intro B.
+  first [ exfalso; vm_compute in B; discriminate B
+        | exists convnext_cex; split;
+          [ vm_compute; tauto
+          | intro R;
+            assert (exists r, mk convnext_cex [("model_type", VStr "huge")] = Ok r) as [r M]
+              by (vm_compute; eexists; reflexivity);
+            destruct (R _ r (VStr "huge") M eq_refl) as [s [E I]]; injection E as <-;
+            simpl in I; repeat (destruct I as [I|I]; [discriminate I|]); contradiction ] ].
+Qed.
+Print Assumptions convnext_sizes_refuted.
+
+(* --- oneof -------------------------------------------------------------------- *)
+
+(* more than one backbone, or more than one head type, at once is rejected, for
+   ALL keyword arguments *)
+Theorem backbone_and_head_reject_two : forall c, In c [cls_BackboneConfig; cls_HeadConfig] ->
+  forall kw f1 f2 v1 v2,
+  In f1 (c_fields c) -> In f2 (c_fields c) -> f_name f1 <> f_name f2 ->
+  lookup (f_name f1) kw = Some v1 -> lookup (f_name f2) kw = Some v2 -> v1 <> VNone -> v2 <> VNone ->
+  is_ok (mk c kw) = false.
+Proof.
+  intros c I kw f1 f2 v1 v2. apply mk_oneof_rejects_two. simpl in I. destruct I as [<-|[<-|[]]]; reflexivity.
+Qed.
+Print Assumptions backbone_and_head_reject_two.
+
+(* --- F13: the documented presets must reach the training configuration -------- *)
+
+Definition model_arg (b h : cfg) : string -> cfg :=
+  env_of [("backbone_config", b); ("head_configs", h)] get_model_config_defaults.
+Definition preset_converts (p : string) : res cfg :=
+  bind (get_model_config (model_arg (VStr p) (VStr "centroid"))) (to_sleap_nn_cfg classes "ModelConfig").
+Definition presets_convert_b : bool := forallb (fun e => is_ok (preset_converts (fst e))) PRESETS.
+
+Theorem presets_convert_full : presets_convert_b = true ->
+  forall e, In e PRESETS -> exists c, preset_converts (fst e) = Ok c.
+Proof.
+  intros B e I. unfold presets_convert_b in B. rewrite forallb_forall in B. specialize (B e I).
+  destruct (preset_converts (fst e)) as [c|]; [exists c; reflexivity | discriminate B].
+Qed.
+Print Assumptions presets_convert_full.
+
+Definition preset_cex : string :=
+  match find (fun e => negb (is_ok (preset_converts (fst e)))) PRESETS with
+  | Some e => fst e
+  | None => ""
+  end.
+
+Theorem presets_convert_refuted : presets_convert_b = false ->
+  exists p mc, In p (map fst PRESETS) /\
+    get_model_config (model_arg (VStr p) (VStr "centroid")) = Ok mc /\
+    to_sleap_nn_cfg classes "ModelConfig" mc = Err ValidationError.
+Proof.
+  intro B.
+  first [ exfalso; vm_compute in B; discriminate B
+        | exists preset_cex;
+          assert (exists mc, get_model_config (model_arg (VStr preset_cex) (VStr "centroid")) = Ok mc /\
+                             to_sleap_nn_cfg classes "ModelConfig" mc = Err ValidationError) as [mc [G T]]
+            by (vm_compute; eexists; split; reflexivity);
+          exists mc; split; [vm_compute; tauto | split; assumption] ].
+Qed.
+Print Assumptions presets_convert_refuted.
+
+(* unconditional part: the presets whose class is the declared field type convert *)
+Theorem presets_convert_partial :
+  forallb (fun p => is_ok (preset_converts p)) ["unet"; "convnext"; "convnext_tiny"; "swint"; "swint_tiny"] = true.
+Proof. vm_compute. reflexivity. Qed.
+Print Assumptions presets_convert_partial.
+
+(* ================================================================ (d) on built *)
+
+Lemma verify_schema_wf : swf verify_schema = true.
+Proof. vm_compute. reflexivity. Qed.
+Print Assumptions verify_schema_wf.
+
+(* normalisation changes no value of, and is idempotent on, EVERY configuration
+   that TrainingJobConfig(...).to_sleap_nn_cfg() produces, whatever the three
+   sections are *)
+Theorem normalise_identity_on_built : forall dc mc tc job c,
+  job_of dc mc tc = Ok job -> to_sleap_nn_cfg classes "TrainingJobConfig" job = Ok c ->
+  verify_training_cfg c = Ok c.
+Proof.
+  intros dc mc tc job c J T. unfold job_of in J.
+  destruct (mk_complete _ _ _ J) as [kv [-> K]].
+  unfold to_sleap_nn_cfg in T. apply bind_ok in T. destruct T as [c0 [T M]].
+  destruct (has_missing c0) eqn:HM; [discriminate|]. injection M as <-.
+  apply to_cfg_obj_keys in T. destruct T as [kv' [-> K']].
+  unfold verify_training_cfg. rewrite K', K.
+  replace (forallb (fun k => mem_str k (field_names cls_TrainingJobConfig)) (field_names cls_TrainingJobConfig))
+    with true by (vm_compute; reflexivity).
+  apply normalise_identity_on_complete; [exact verify_schema_wf | | exact HM].
+  unfold verify_schema. apply complete_all_leaves.
+  - rewrite K', K. unfold field_names. rewrite map_map. reflexivity.
+  - apply Forall_forall. intros e I. apply in_map_iff in I. destruct I as [f [<- _]]. eexists. reflexivity.
+Qed.
+Print Assumptions normalise_identity_on_built.
+
+Theorem normalise_idempotent_on_any : forall c c',
+  verify_training_cfg c = Ok c' -> verify_training_cfg c' = Ok c'.
+Proof.
+  intros c c' V. unfold verify_training_cfg in *. destruct c; try discriminate.
+  destruct (forallb _ _) eqn:F; [|discriminate].
+  pose proof V as V0. unfold normalise in V. apply bind_ok in V. destruct V as [c1 [M N]].
+  destruct (has_missing c1); [discriminate|]. injection N as <-.
+  pose proof (merge_result_complete _ verify_schema_wf _ _ M) as C.
+  unfold verify_schema in M. simpl in M.
+  destruct (negb _) in M; [discriminate|]. apply bind_ok in M. destruct M as [kv' [_ E]]. injection E as <-.
+  unfold verify_schema in C. rewrite complete_node in C. apply complete_fields_keys in C.
+  assert (forallb (fun k => mem_str k (field_names cls_TrainingJobConfig)) (map fst kv') = true) as F'.
+  { rewrite C, map_map. apply forallb_forall. intros k I. apply mem_str_In. exact I. }
+  rewrite F'. eapply normalise_idempotent; [exact verify_schema_wf | exact V0].
+Qed.
+Print Assumptions normalise_idempotent_on_any.
+
+(* every class can be default-constructed and gives the declared defaults
+   (so `default_obj`, used as "the schema default" above, is what `Cls()` returns) *)
+Theorem defaults_constructible :
+  forallb (fun c => match mk c [] with Ok r => cfg_eqb r (default_obj c) | Err _ => false end) classes = true.
+Proof. vm_compute. reflexivity. Qed.
+Print Assumptions defaults_constructible.
